@@ -27,6 +27,9 @@ CHECKS = {
  "C10": ("exploration", "bounded-exhaustive differential execution: every program run untraced and traced at each detail level; enumerated A-B-A histories compared modulo volatile fields",
          "All programs of length 1-2 (thorough 1-3) over a 20-symbol alphabet incl. every failure kind, on empty and full contexts, are executed without a driver and with a JSONL driver at the detail levels; data, context, exception class/message/identity, failing node and processor log must coincide. Every (A, B) pair of a 7x6 menu (sweeps, failing and unconstructible pipelines) is run as A, B, A through the same Pipeline object and through a fresh one; the two traces of A must be equal after removing run id, timestamps, durations and seq.",
          "volatile-field list as documented; programs longer than the bound and payloads outside the alphabet are not explored", "3 C10"),
+ "C07": ("model_checking", "bounded-exhaustive program enumeration; every SER of every traced run is compared field by field with a reference execution account (resolution table, context diffs, states, processor log) under four host time zones",
+         "For all programs of length 1-2 (thorough 1-3) over a 20-symbol alphabet and every parameter placement (none / all keys / each key alone, i.e. including defaults overridden by context), each SER's created/updated keys, processor.ref, parameters and parameter_sources, required-keys / input-type / output-type / context-writes checks, digest chaining and digest-as-function-of-content (also across worker processes), durations and timestamps (RFC 3339, true UTC instant inside the harness's wall-clock bracket, non-decreasing) are checked against the reference interpreter's account of the same run, with the host TZ switched between UTC, +09:00, -08:00 and +05:45.",
+         "reference account mc/ref/interp.py (bound to the implementation by C01); wall-clock bracket +-2 ms; output_type_ok not judged on a failing node's SER", "3 C07"),
 }
 NA = []
 def main():
